@@ -40,6 +40,9 @@ type Interpreter struct {
 	IdentResolver func(v string) value.Value
 
 	TestingState State
+
+	// modules whose inclusion is being resolved, to detect recursive inclusion
+	including map[string]struct{}
 }
 
 func New(options ...context.Option) *Interpreter {
